@@ -491,6 +491,39 @@ theorem program_equiv (D : DS σ) (V : σ → List Nat → Prop) (W : σ → Nat
       rfl
     · exact ih _ _ (e2 hc) h3
 
+/-- programs that only read the current document and advance -/
+def advOnly : List Op → Bool
+  | [] => true
+  | .doc :: r => advOnly r
+  | .advance :: r => advOnly r
+  | _ :: _ => false
+
+/-- for an implementation whose `doc`/`advance` refine the cursor, every program of `doc` and
+`advance` calls observes the specification's sequence (no other method is needed) -/
+theorem core0_program_equiv (D : DS σ) (V : σ → List Nat → Prop)
+    (hC : Core0 D.doc D.advance V) : ∀ (prog : List Op) (s : σ) (l : List Nat), V s l →
+      advOnly prog = true → implRun D s prog = specRun ⟨l, none⟩ prog := by
+  intro prog
+  induction prog with
+  | nil => intros; rfl
+  | cons op rest ih =>
+    intro s l hV hp
+    cases op with
+    | doc =>
+      simp only [implRun, specRun, implStep, specStep, hC.doc_eq hV]
+      congr 1
+      exact ih s l hV (by simpa [advOnly] using hp)
+    | advance =>
+      have hV' := hC.advance hV
+      simp only [implRun, specRun, implStep, specStep, hC.doc_eq hV']
+      congr 1
+      exact ih _ _ hV' (by simpa [advOnly] using hp)
+    | seek t => simp [advOnly] at hp
+    | seekDanger t => simp [advOnly] at hp
+    | fillBuffer => simp [advOnly] at hp
+    | fillBitset m => simp [advOnly] at hp
+    | count => simp [advOnly] at hp
+
 /-! ## the vector leaf -/
 namespace Vec
 
